@@ -31,6 +31,8 @@ class Module:
         _strip_noops(self.tree)
         if os.environ.get("COBASTATIC_CANON_CMP", "1") != "0":
             _normalise_comparisons(self.tree)
+        if os.environ.get("COBASTATIC_CANON_RET", "1") != "0":
+            _inline_return_temporaries(self.tree)
         for parent in ast.walk(self.tree):
             for child in ast.iter_child_nodes(parent):
                 child._parent = parent  # type: ignore[attr-defined]
@@ -92,6 +94,41 @@ def _normalise_annotations(tree: ast.AST) -> None:
                 if not out:
                     out = [ast.copy_location(ast.Pass(), b[0])]
                 b[:] = out
+
+
+def _inline_return_temporaries(tree: ast.AST) -> None:
+    """`t = <expr>` immediately followed by `return t` becomes `return <expr>` when `t` is a local whose every store and every load in the
+    function belongs to such a pair (the 'introduce variable' / 'inline variable' refactorings are invisible to the rules)."""
+    for fn in ast.walk(tree):
+        if not isinstance(fn, (ast.FunctionDef, ast.AsyncFunctionDef)):
+            continue
+        loads, stores = {}, {}
+        for n in ast.walk(fn):
+            if isinstance(n, ast.Name):
+                d = loads if isinstance(n.ctx, ast.Load) else stores
+                d[n.id] = d.get(n.id, 0) + 1
+        params = {a.arg for a in fn.args.args + fn.args.kwonlyargs + fn.args.posonlyargs}
+        pairs = {}
+        for n in ast.walk(fn):
+            for field in ("body", "orelse", "finalbody"):
+                b = getattr(n, field, None)
+                if not (isinstance(b, list) and len(b) >= 2 and all(isinstance(x, ast.stmt) for x in b)):
+                    continue
+                for i in range(len(b) - 1):
+                    a, r = b[i], b[i + 1]
+                    if isinstance(a, ast.Assign) and len(a.targets) == 1 and isinstance(a.targets[0], ast.Name) and isinstance(r, ast.Return) \
+                            and isinstance(r.value, ast.Name) and r.value.id == a.targets[0].id and a.targets[0].id not in params \
+                            and not any(isinstance(y, ast.Name) and y.id == a.targets[0].id for y in ast.walk(a.value)):
+                        pairs.setdefault(a.targets[0].id, []).append((b, a, r))
+        for name, ps in pairs.items():
+            if loads.get(name, 0) != len(ps) or stores.get(name, 0) != len(ps):
+                continue
+            for b, a, r in ps:
+                i = b.index(a)
+                new = ast.Return(value=a.value)
+                ast.copy_location(new, a)
+                new.end_lineno, new.end_col_offset = getattr(r, "end_lineno", r.lineno), getattr(r, "end_col_offset", 0)
+                b[i:i + 2] = [new]
 
 
 _SWAP = {ast.Lt: ast.Gt, ast.Gt: ast.Lt, ast.LtE: ast.GtE, ast.GtE: ast.LtE, ast.Eq: ast.Eq, ast.NotEq: ast.NotEq}
